@@ -423,6 +423,13 @@ def linked_children(m, a, ci):
     return ListIter(_linked(m, a[0]).kids())
 
 
+@reg('LinkedNode::parent')
+def linked_parent(m, a, ci):
+    from .models_std import some, NONE
+    p = _linked(m, a[0]).parent
+    return some(p) if p is not None else NONE
+
+
 @reg('LinkedNode.Clone::clone')
 def linked_clone(m, a, ci):
     return _linked(m, a[0])
